@@ -128,25 +128,25 @@ func init() {
 					want = 1
 				}
 				if got := a.Compare(b); got != want {
-					report(Violation{"C17", "Compare is not lexicographic by revision then height", M{"a": a.String(), "b": b.String()}, M{"got": got, "want": want}})
+					report(Violation{Property: "C17", What: "Compare is not lexicographic by revision then height", Input: M{"a": a.String(), "b": b.String()}, Observed: M{"got": got, "want": want}})
 				}
 				if !le(a, a) {
-					report(Violation{"C17", "LTE not reflexive", M{"a": a.String()}, nil})
+					report(Violation{Property: "C17", What: "LTE not reflexive", Input: M{"a": a.String()}, Observed: nil})
 				}
 				if le(a, b) && le(b, a) && a != b {
-					report(Violation{"C17", "LTE not antisymmetric", M{"a": a.String(), "b": b.String()}, nil})
+					report(Violation{Property: "C17", What: "LTE not antisymmetric", Input: M{"a": a.String(), "b": b.String()}, Observed: nil})
 				}
 				if le(a, b) && le(b, c) && !le(a, c) {
-					report(Violation{"C17", "LTE not transitive", M{"a": a.String(), "b": b.String(), "c": c.String()}, nil})
+					report(Violation{Property: "C17", What: "LTE not transitive", Input: M{"a": a.String(), "b": b.String(), "c": c.String()}, Observed: nil})
 				}
 				if !le(a, b) && !le(b, a) {
-					report(Violation{"C17", "LTE not total", M{"a": a.String(), "b": b.String()}, nil})
+					report(Violation{Property: "C17", What: "LTE not total", Input: M{"a": a.String(), "b": b.String()}, Observed: nil})
 				}
 				if a.LT(b) != (le(a, b) && a != b) || a.GT(b) != b.LT(a) || a.GTE(b) != b.LTE(a) || a.EQ(b) != (a == b) {
-					report(Violation{"C17", "comparison predicates disagree", M{"a": a.String(), "b": b.String()}, nil})
+					report(Violation{Property: "C17", What: "comparison predicates disagree", Input: M{"a": a.String(), "b": b.String()}, Observed: nil})
 				}
 				if p, err := clienttypes.ParseHeight(a.String()); err != nil || p != a {
-					report(Violation{"C17", "format/parse does not round-trip", M{"a": a.String()}, M{"parsed": p.String()}})
+					report(Violation{Property: "C17", What: "format/parse does not round-trip", Input: M{"a": a.String()}, Observed: M{"parsed": p.String()}})
 				}
 				// elapsed monotone; zero never elapses
 				t := channeltypes.NewTimeout(near(r, a), r.Num64())
@@ -162,16 +162,16 @@ func init() {
 					ts2 = ts
 				}
 				if t.Elapsed(a, ts) && le(a, b) && !t.Elapsed(b, ts2) {
-					report(Violation{"C17", "elapsed timeout stops being elapsed at a greater height/time", M{"timeout": t.String(), "h": a.String(), "ts": U(ts), "h2": b.String(), "ts2": U(ts2)}, nil})
+					report(Violation{Property: "C17", What: "elapsed timeout stops being elapsed at a greater height/time", Input: M{"timeout": t.String(), "h": a.String(), "ts": U(ts), "h2": b.String(), "ts2": U(ts2)}, Observed: nil})
 				}
 				if t.Height.IsZero() && t.Timestamp == 0 && t.Elapsed(a, ts) {
-					report(Violation{"C17", "zero timeout elapsed", M{"h": a.String(), "ts": U(ts)}, nil})
+					report(Violation{Property: "C17", What: "zero timeout elapsed", Input: M{"h": a.String(), "ts": U(ts)}, Observed: nil})
 				}
 				if t.Height.IsZero() && channeltypes.NewTimeout(t.Height, 0).Elapsed(a, ts) {
-					report(Violation{"C17", "zero timeout height elapsed", M{"h": a.String()}, nil})
+					report(Violation{Property: "C17", What: "zero timeout height elapsed", Input: M{"h": a.String()}, Observed: nil})
 				}
 				if t.Timestamp == 0 && t.TimestampElapsed(ts) {
-					report(Violation{"C17", "zero timeout timestamp elapsed", M{"ts": U(ts)}, nil})
+					report(Violation{Property: "C17", What: "zero timeout timestamp elapsed", Input: M{"ts": U(ts)}, Observed: nil})
 				}
 			}
 		},
